@@ -3,6 +3,7 @@ package props
 import (
 	"encoding/hex"
 	"fmt"
+	"regexp"
 	"sort"
 	"strings"
 
@@ -220,7 +221,7 @@ func buildUnits(r *vlib.Run, prop string, s *harness.Scratch, units []*harness.U
 					rp["idl/"+k] = v
 				}
 				r.Eval(1)
-				r.Violation(prop+"/generated-code-does-not-compile/"+c01Kind(u.BuildErr[0]), fmt.Sprintf("config [%s:%s]: %s", u.Backend, strings.Join(u.Opts, ","), vlib.Trunc(strings.Join(u.BuildErr, " | "), 1200)), rp)
+				r.Violation(prop+"/generated-code-does-not-compile/"+c01Kind(u.BuildErr[0])+unusedImportClass(u, u.BuildErr[0]), fmt.Sprintf("config [%s:%s]: %s", u.Backend, strings.Join(u.Opts, ","), vlib.Trunc(strings.Join(u.BuildErr, " | "), 1200)), rp)
 			}
 			continue
 		}
@@ -230,4 +231,30 @@ func buildUnits(r *vlib.Run, prop string, s *harness.Scratch, units []*harness.U
 		vlib.Fatal(prop, "no unit could be built; go build said: %s", vlib.Trunc(out, 1500))
 	}
 	return ok
+}
+
+var unusedImportRe = regexp.MustCompile(`^gen/(.*)/([^/]+)\.go:\d+: "scratch/[^/]+/gen/([^"]+)" imported and not used`)
+
+// unusedImportClass refines the finding key of an "imported and not used" diagnostic: is the unused package
+// generated from a file the IDL file includes itself, or from one it only reaches through another include?
+func unusedImportClass(u *harness.Unit, msg string) string {
+	m := unusedImportRe.FindStringSubmatch(msg)
+	if m == nil || u.Prog == nil {
+		return ""
+	}
+	var from *idl.File
+	for _, f := range u.Prog.Files {
+		if pkgDir(f) == m[1] && f.Prefix() == m[2] {
+			from = f
+		}
+	}
+	if from == nil {
+		return ""
+	}
+	for _, g := range u.Prog.Files {
+		if pkgDir(g) == m[3] && from.IncludeIndex(g) >= 0 {
+			return "/of-a-directly-included-file"
+		}
+	}
+	return "/of-an-indirectly-included-file"
 }
